@@ -702,7 +702,11 @@ def exec_step(env, st, i):
         return pairs
     from harness import ops2
     if op in ops2.STEPS:
-        return ops2.STEPS[op](env, st, i)
+        snap = ops2.cov_watch_before(env, st)
+        pairs = ops2.STEPS[op](env, st, i)
+        if snap:
+            pairs = list(pairs) + ops2.cov_watch_after(env, st, i, snap)
+        return pairs
     raise RuntimeError('unknown step op %r' % op)
 
 
